@@ -949,6 +949,24 @@ impl Runner {
 		}
 		if self.mirror.len() > common {
 			for (_, _, rel) in self.mirror[common..].iter() {
+				// a preimage that was shown in a block which is now leaving the chain: O may have acted on it (it
+				// fulfils upstream at once) while a replica that only sees it later, or never, fails the HTLC back;
+				// the two were not given the same information in time, so they get the partial comparison of a
+				// preimage known to one replica only
+				for t in rel.iter() {
+					if let Some(tx) = self.rel_txs.get(t) {
+						for i in tx.input.iter() {
+							for w in i.witness.iter() {
+								if w.len() == 32 {
+									let h = sha256::Hash::hash(w).to_byte_array();
+									if self.all_hashes.contains(&h) {
+										self.know_preimages.insert(format!("shown-in-removed-block:{}", vcore::hex(&h)));
+									}
+								}
+							}
+						}
+					}
+				}
 				if rel.iter().any(|t| self.was_buried.contains(t)) {
 					// removed after it had reached the anti-reorg depth: the library treats it as final for good (a
 					// re-confirmation is skipped as "already confirmed"), the states need not converge again
